@@ -5,7 +5,7 @@
    Only statements; every proof is `exact <lemma>`. *)
 From Coq Require Import List ZArith QArith Qcanon Bool Arith.
 From Dimod Require Import Base.Util Model.Poly Model.Comb Gen.Gen_Gates Model.Gates
-  Proofs.GatesFacts Props.Comb Gen.Gen_Combinations Proofs.CombRule Model.Knap Proofs.KnapFacts Model.MultCircuit Proofs.MultFacts Proofs.MultArith Proofs.MultAttain Proofs.MultAll Model.Qap Proofs.QapFacts Model.Magic Proofs.MagicFacts Model.Sat Proofs.SatFacts.
+  Proofs.GatesFacts Props.Comb Gen.Gen_Combinations Proofs.CombRule Gen.Gen_Graph Proofs.GraphConstants Model.Knap Proofs.KnapFacts Model.MultCircuit Proofs.MultFacts Proofs.MultArith Proofs.MultAttain Proofs.MultAll Model.Qap Proofs.QapFacts Model.Magic Proofs.MagicFacts Model.Sat Proofs.SatFacts.
 Import ListNotations.
 
 (* energy 0 on exactly the rows of the truth table, >= 1 on every other row (strength 1) *)
@@ -93,6 +93,21 @@ Theorem C17_mwis_energy :
     = (s * edges_inside sel edges - selected_weight sel weights)%Qc.
 Proof. exact mwis_energy. Qed.
 Print Assumptions C17_mwis_energy.
+
+(* the constants are those TRANSLATED from generators/graph.py on every run *)
+Theorem C17_graph_constants_are_model :
+  is_edge_bias = 1%Qc /\ is_node_bias = 0%Qc /\ mis_node_weight = 1%Qc /\ mwis_default_weight = 1%Qc /\
+  mwis_unweighted_max = 1%Qc /\ mwis_empty_max = 1%Qc /\ mwis_offset = 0%Qc.
+Proof. exact graph_constants_are_model. Qed.
+Print Assumptions C17_graph_constants_are_model.
+
+Theorem C17_mwis_poly_is_source :
+  forall s edges ws,
+    mwis_poly s edges ws
+    = mkPoly mwis_offset (map (fun t => (fst t, (- snd t)%Qc)) ws)
+                         (map (fun e => (fst e, snd e, (s * is_edge_bias)%Qc)) edges).
+Proof. exact mwis_poly_is_source. Qed.
+Print Assumptions C17_mwis_poly_is_source.
 
 Theorem C17_mwis_independent :
   forall s edges weights sel,
